@@ -241,12 +241,13 @@ func (s step) answer() ([]byte, error) {
 	case right:
 		return []byte(keys.Passphrase), nil
 	case wrong:
-		switch s.variant % 4 {
+		// one wrong answer in three costs a key derivation
+		switch s.variant % 6 {
 		case 0:
 			return []byte("wrong horse"), nil
 		case 1:
 			return []byte(keys.Passphrase + " "), nil
-		case 2:
+		case 2, 3:
 			return []byte{}, nil
 		}
 		return nil, nil
@@ -261,7 +262,7 @@ func (s step) answer() ([]byte, error) {
 func (s step) variantName() string {
 	switch s.p {
 	case wrong:
-		return [...]string{"other passphrase", "passphrase plus a space", "empty", "nil"}[s.variant%4]
+		return [...]string{"other passphrase", "passphrase plus a space", "empty", "empty", "nil", "nil"}[s.variant%6]
 	case cberr:
 		return [...]string{"(nil, error)", "(right passphrase, error)"}[s.variant%2]
 	}
@@ -625,6 +626,7 @@ func main() {
 		"fixed key files: OpenSSH/bcrypt (ssh-keygen -a 2) Ed25519 and RSA, legacy PEM (AES-128-CBC) RSA; RSA moduli of 2048, 2500 and 2052 bits; one right passphrase; wrong = another string, passphrase plus a space, empty, nil",
 		"every step is age.Decrypt with the identity as the only identity, on a well-formed file built by refage; a stanza of the identity's type without arguments is outside the alphabet (C14)",
 		"histories are sequential (C20 covers sharing); the identity value is never copied",
+		"multi-identity stage: one age.Decrypt per case over headers of 2..3 (thorough 4) distinct stanzas from {X25519, ssh-ed25519 x2, ssh-rsa x2, unknown} in every order and lists of 2..3 distinct identity kinds in every order, fresh identity values per case; an identity after the one that ends the call may or may not be consulted (at most one prompt, none without a stanza of its own); Unwrap-level sequences on one shared stanza slice compared with a deep snapshot, including two elements of spare capacity",
 		"CLI stage: one `age -d -i KEY -o out FILE` run per case on a pty (fresh process, so one step per identity); the identity's public key is the one embedded in an OpenSSH-format key file, else the sibling .pub; a no-match failure is recognised by the tool's message \"no identity matched\"",
 		"thorough length-4 enumeration folds the four multi-stanza positions into one symbol whose position is fixed per (history, step); all four positions are separate symbols up to length 3",
 	}
@@ -741,12 +743,12 @@ func main() {
 		batches = append(batches, enumBatch(c, "all-histories-len<=2", alphabetOf(c.base), 2))
 	}
 	r.Set("rsa_modulus_bits", []int{encRsa1.rsaPub.N.BitLen(), rsa2.rsaPub.N.BitLen(), encRsa2500.rsaPub.N.BitLen(), encRsa2052.rsaPub.N.BitLen()})
-	nS := r.Pick(160, 1500)
+	nS := r.Pick(100, 1500)
 	for _, c := range []*idConf{rsaConsO, rsaConsP, rsaInconsP, rsaInconsO, rsa2500Cons, rsa2052Cons, rsaOddIncons, rsaOddIncons2} {
 		batches = append(batches, sampleBatch(r, c, nS, 6))
 	}
 	for _, c := range []*idConf{crossER, crossRE, edCons2, edIncons2, edCons, edIncons} {
-		batches = append(batches, sampleBatch(r, c, r.Pick(120, 1500), 6))
+		batches = append(batches, sampleBatch(r, c, r.Pick(80, 1500), 6))
 	}
 	t := true
 	r.Exhaustive = &t
@@ -759,9 +761,10 @@ func main() {
 		r.Set("histories:"+b.c.name+":"+b.name, b.count)
 	}
 	col := newCollector()
-	if os.Getenv("C19_STAGE") == "cli" {
-		// development aid: only the CLI stage; such a run is never a verdict
-		r.Inconclusive("C19_STAGE=cli: the library stage was skipped")
+	if st := os.Getenv("C19_STAGE"); st != "" {
+		// development aid: "cli" = only the CLI stage, anything else = all but
+		// the history stage; such a run is never a verdict
+		r.Inconclusive("C19_STAGE=%s: the history stage was skipped", st)
 		total = 0
 	}
 	mon.Par(total, func(i int) {
@@ -797,6 +800,9 @@ func main() {
 	ps := map[string]*party{}
 	for _, p := range []*party{encEd1, encEd2, e1, encRsa1, rsa2, r1, encRsa2500, encRsa2052, r4, x1} {
 		ps[p.name] = p
+	}
+	if os.Getenv("C19_STAGE") != "cli" {
+		multiStages(r, ps)
 	}
 	cliStage(r, ps)
 	r.Finish()
